@@ -27,14 +27,24 @@ class Wire:
     def nr(self, d):
         k = ("r", json.dumps(d, sort_keys=True, default=str))
         if k not in self._n:
-            self._n[k] = neutral_r(d)
+            self._n[k] = self.understood(neutral_r(d), d)
         return self._n[k]
 
     def nw(self, d):
         k = ("w", json.dumps(d, sort_keys=True, default=str))
         if k not in self._n:
-            self._n[k] = neutral_w(d)
+            self._n[k] = self.understood(neutral_w(d), d)
         return self._n[k]
+
+    def understood(self, n, d):
+        """A codec the analyser could not summarise is an analysis limit (exit 2), never a verdict."""
+        x = n
+        while isinstance(x, dict):
+            if x.get("k") == "opaque":
+                who = (d or {}).get("_codec", "?")
+                raise AnalysisError(f"codec {who} not understood: {x.get('reason')}")
+            x = x.get("item") or x.get("inner")
+        return n
 
     def classes(self):
         for key in sorted(self.S.classes):
